@@ -230,6 +230,12 @@ pub fn dispatch(op: &str, args: &[&str]) -> String {
             let Some(mut b) = board_from(args[0]) else { return "badfen".into() };
             terminal_of(&mut b).into()
         }
+        "anylegal" => {
+            // the evaluator's / SAN writer's path: is_any_move_legal on the pseudo-legal buffer
+            let Some(mut b) = board_from(args[0]) else { return "badfen".into() };
+            let buffer = b.generate_pseudo_legal_moves();
+            if b.is_any_move_legal(&buffer) { "1".into() } else { "0".into() }
+        }
         "hash" => {
             let Some(b) = board_from(args[0]) else { return "badfen".into() };
             format!("{:x} {:x}", b.calculate_zobrist_hash(), b.calculate_zobrist_pawn_hash())
